@@ -162,7 +162,10 @@ Definition to_group (mf : fl) (n : Z) (col : list val) (lv : gl) : list val :=
 
 Definition level_step (mf : fl) (n : Z) (lv : gl) (col : list val) (g : gl) : res (list val * gl) :=
   let tg := to_group mf n col lv in
-  let col' := map (fun r => if mem r tg then get_group lv r else r) col in   (* numpy.select *)
+  (* numpy.select, skipped when nothing is to be grouped (the guard is the repair "fix:
+     ChainedDiscretizer.fit handles a level where every value is frequent enough"; before it
+     select([], [], ...) raised ValueError); with tg = [] the lines below are the identity *)
+  let col' := map (fun r => if mem r tg then get_group lv r else r) col in
   do g' <- group_pairs g (map (fun v => (v, get_group lv v)) tg) ;
   Ok (col', g').
 
